@@ -789,3 +789,50 @@ package jsonpath
 //@   ensures ok: ret1 == nil ==> len(ret0) >= 1 && fresh(ret0)
 //@   ensures err: ret1 != nil ==> ret0 == nil && (isType(ret1, ErrorMemberNotExist) || isType(ret1, ErrorTypeUnmatched) || isType(ret1, ErrorFunctionFailed))
 //@   loop 1 invariant ownsBuf(container) && wf(result) && mine(result) && len(result) == len(container.result) && arr(result) != arr(container.result) && fresh(result)
+
+// ---------------------------------------------------------------------------------------
+// Parse time: Parse, its deferred closure, the generated recogniser (assumed)
+// ---------------------------------------------------------------------------------------
+
+//@ guarded parser by parseMutex
+
+//@ spec isSyntaxErr(e error) bool = isType(e, ErrorInvalidSyntax) || isType(e, ErrorInvalidArgument) || isType(e, ErrorFunctionNotFound) || isType(e, ErrorNotSupported)
+//@ spec parserZero() bool = parser.jsonPathParser.root == nil && arr(parser.jsonPathParser.paramsList) == 0 && len(parser.jsonPathParser.paramsList) == 0 && cap(parser.jsonPathParser.paramsList) == 0 && off(parser.jsonPathParser.paramsList) == 0 && arr(parser.jsonPathParser.params) == 0 && len(parser.jsonPathParser.params) == 0 && cap(parser.jsonPathParser.params) == 0 && off(parser.jsonPathParser.params) == 0 && parser.jsonPathParser.unescapeRegex == nil && parser.jsonPathParser.filterFunctions == nil && parser.jsonPathParser.aggregateFunctions == nil && !parser.jsonPathParser.accessorMode
+
+// sync.Mutex: ghost flag held(m) = locked by the current call
+//@ extern (*sync.Mutex).Lock
+//@   requires !held(m)
+//@   modifies heap:G_held, obj(m)
+//@   ensures held(m)
+//@ extern (*sync.Mutex).Unlock
+//@   requires held(m)
+//@   modifies heap:G_held, obj(m)
+//@   ensures !held(m)
+
+// The generated packrat recogniser and its action replay (jsonpath.peg.go) are outside every contract:
+// assumed to terminate, not to panic except through the typed panics of the actions, and to touch only
+// the parser object.  (A-PEG, DESIGN.md.)
+//@ extern (*pegJSONPathParser).Init
+//@   requires held(parseMutex)
+//@   modifies heap:F_pegJSONPathParser_*, heap:F_tokens32_*, heap:alloc, obj(p)
+//@   ensures p.parse != nil
+//@ extern (*pegJSONPathParser).Reset
+//@   requires held(parseMutex)
+//@   modifies heap:F_pegJSONPathParser_*, heap:F_tokens32_*, heap:alloc, obj(p)
+//@ extern (*pegJSONPathParser).Parse
+//@   requires held(parseMutex)
+//@   modifies heap:F_pegJSONPathParser_*, heap:F_tokens32_*, heap:alloc, obj(p)
+//@ extern (*pegJSONPathParser).Execute
+//@   requires held(parseMutex)
+//@   modifies heap:F_*, heap:A_*, heap:C_*, heap:alloc, heap:MF_*, obj(p)
+//@   panics ErrorInvalidSyntax, ErrorInvalidArgument, ErrorFunctionNotFound, ErrorNotSupported
+//@   ensures p.jsonPathParser.root != nil && WFnode(p.jsonPathParser.root) && held(parseMutex)
+
+//@ func Parse
+//@   props C02 C19 C06
+//@   requires !held(parseMutex) && parserZero()
+//@   modifies obj(parser), obj(parseMutex)
+//@   ensures unlocked: !held(parseMutex)
+//@   ensures reset: parserZero()
+//@   ensures shape: (f != nil && err == nil) || (f == nil && err != nil && isSyntaxErr(err))
+//@   ensures usable: f != nil ==> cloFn(f) == fnconst("Parse$2") && C_Val[cloBind(f, 0)] != nil && WFnode(C_Val[cloBind(f, 0)])
